@@ -466,3 +466,288 @@ Proof.
     rewrite HT in Hp. discriminate.
   - now rewrite L, Hq.
 Qed.
+
+(* ============================================================================================ *)
+(* Factory level                                                                                *)
+(* ============================================================================================ *)
+
+(* ---- facts about poll_ready needed by apply_cfg_factory's readiness wait ---- *)
+Lemma poll_ready_indep : forall e w, fst (poll_ready e w) = fst (poll_ready e 0).
+Proof.
+  induction e as [id rs beh|id beh|a IHa b IHb|m a IHa|m a IHa|wf a IHa|k a IHa]; intros w;
+    cbn [poll_ready].
+  - destruct rs; reflexivity.
+  - reflexivity.
+  - specialize (IHa w). specialize (IHb w).
+    destruct (poll_ready a w) as [[a1 r1] l1], (poll_ready a 0) as [[a0 r0] l0].
+    cbn in IHa. inversion IHa; subst.
+    destruct (poll_ready b w) as [[b1 s1] m1], (poll_ready b 0) as [[b0 s0] m0].
+    cbn in IHb. inversion IHb; subst.
+    destruct r0; try reflexivity; destruct s0; reflexivity.
+  - specialize (IHa w). destruct (poll_ready a w) as [[a1 r1] l1], (poll_ready a 0) as [[a0 r0] l0].
+    cbn in IHa. inversion IHa; subst. reflexivity.
+  - specialize (IHa w). destruct (poll_ready a w) as [[a1 r1] l1], (poll_ready a 0) as [[a0 r0] l0].
+    cbn in IHa. inversion IHa; subst. destruct (map_rerr m r0). reflexivity.
+  - specialize (IHa w). destruct (poll_ready a w) as [[a1 r1] l1], (poll_ready a 0) as [[a0 r0] l0].
+    cbn in IHa. inversion IHa; subst. reflexivity.
+  - specialize (IHa w). destruct (poll_ready a w) as [[a1 r1] l1], (poll_ready a 0) as [[a0 r0] l0].
+    cbn in IHa. inversion IHa; subst. reflexivity.
+Qed.
+
+Lemma poll_ready_len : forall e w e' r l,
+  poll_ready e w = (e', r, l) ->
+  script_len e' <= script_len e /\ (r = RPending -> script_len e' < script_len e).
+Proof.
+  induction e as [id rs beh|id beh|a IHa b IHb|m a IHa|m a IHa|wf a IHa|k a IHa];
+    intros w e' r l H; cbn [poll_ready] in H.
+  - destruct rs as [|x rs]; inversion H; subst; cbn; split; try lia; discriminate.
+  - inversion H; subst. split; [lia|discriminate].
+  - destruct (poll_ready a w) as [[a' ra] la] eqn:Ea. destruct (IHa _ _ _ _ Ea) as [A1 A2].
+    destruct ra as [| |x].
+    + destruct (poll_ready b w) as [[b' rb] lb] eqn:Eb. destruct (IHb _ _ _ _ Eb) as [B1 B2].
+      specialize (A2 eq_refl). destruct rb; inversion H; subst; cbn; split; try lia; discriminate.
+    + destruct (poll_ready b w) as [[b' rb] lb] eqn:Eb. destruct (IHb _ _ _ _ Eb) as [B1 B2].
+      destruct rb; inversion H; subst; cbn; split; try lia; try discriminate.
+      intros _. specialize (B2 eq_refl). lia.
+    + inversion H; subst. cbn. split; [lia|discriminate].
+  - destruct (poll_ready a w) as [[a' ra] la] eqn:Ea. inversion H; subst. cbn. eauto.
+  - destruct (poll_ready a w) as [[a' ra] la] eqn:Ea. destruct (IHa _ _ _ _ Ea) as [A1 A2].
+    destruct (map_rerr m ra) as [r' lm] eqn:Em. inversion H; subst. cbn. split; [assumption|].
+    intros ->. apply A2. destruct ra; cbn in Em; inversion Em; reflexivity.
+  - destruct (poll_ready a w) as [[a' ra] la] eqn:Ea. inversion H; subst. cbn. eauto.
+  - destruct (poll_ready a w) as [[a' ra] la] eqn:Ea. inversion H; subst. cbn. eauto.
+Qed.
+
+Lemma poll_ready_fokev : forall e w e' r l, poll_ready e w = (e', r, l) -> Forall (fokev w) l.
+Proof.
+  induction e as [id rs beh|id beh|a IHa b IHb|m a IHa|m a IHa|wf a IHa|k a IHa];
+    intros w e' r l H; cbn [poll_ready] in H.
+  - destruct rs; inversion H; subst; repeat constructor.
+  - inversion H; subst. constructor.
+  - destruct (poll_ready a w) as [[a' ra] la] eqn:Ea. pose proof (IHa _ _ _ _ Ea) as A.
+    destruct ra as [| |x]; [| |inversion H; subst; assumption];
+      destruct (poll_ready b w) as [[b' rb] lb] eqn:Eb; pose proof (IHb _ _ _ _ Eb) as B;
+      destruct rb; inversion H; subst; apply Forall_app; auto.
+  - destruct (poll_ready a w) as [[a' ra] la] eqn:Ea. inversion H; subst. eauto.
+  - destruct (poll_ready a w) as [[a' ra] la] eqn:Ea. pose proof (IHa _ _ _ _ Ea) as A.
+    destruct (map_rerr m ra) as [r' lm] eqn:Em. inversion H; subst.
+    apply Forall_app; split; [assumption|].
+    destruct ra; cbn in Em; inversion Em; subst; repeat constructor.
+  - destruct (poll_ready a w) as [[a' ra] la] eqn:Ea. inversion H; subst. eauto.
+  - destruct (poll_ready a w) as [[a' ra] la] eqn:Ea. inversion H; subst. eauto.
+Qed.
+
+Lemma wait_ready_enough : forall n e, script_len e < n ->
+  snd (fst (wait_ready n e)) <> RPending.
+Proof.
+  induction n as [|n IH]; intros e Hn; [lia|]. cbn [wait_ready].
+  destruct (poll_ready e 0) as [[e' r] l] eqn:E.
+  destruct (poll_ready_len _ _ _ _ _ E) as [L1 L2].
+  destruct r; cbn; try discriminate.
+  specialize (IH e'). destruct (wait_ready n e') as [[k r2] e2]. cbn in *.
+  apply IH. specialize (L2 eq_refl). lia.
+Qed.
+
+(* ---- liveness invariant of factory futures ---- *)
+Definition newtev (ev : event) : Prop :=
+  match ev with EvNewT _ | EvCfgFn _ _ | EvMap _ _ _ => True | _ => False end.
+
+Fixpoint flive (f : ffut) : Prop :=
+  match f with
+  | FFLeaf _ _ _ done => done = false
+  | FFReady v => v <> None
+  | FFAnd fa fb a b => (a = None -> flive fa) /\ (b = None -> flive fb)
+  | FFMapSvc _ st fut => st <> OptNone /\ flive fut
+  | FFMapInitErr _ _ fut => flive fut
+  | FFBox fut done => done = false /\ flive fut
+  | FFTrA fut kt kev => flive fut /\ (forall s, flive (kt s)) /\ (forall s, Forall newtev (kev s))
+  | FFTrB fut => flive fut
+  | FFCfgA fut cfg kc kev =>
+      flive fut /\ cfg <> None /\ (forall c s, flive (kc c s)) /\ (forall c s, Forall newtev (kev c s))
+  | FFCfgB _ cfg kc kev =>
+      cfg <> None /\ (forall c s, flive (kc c s)) /\ (forall c s, Forall newtev (kev c s))
+  | FFCfgC fut => flive fut
+  end.
+
+Lemma newtev_fokev : forall w l, Forall newtev l -> Forall (fokev w) l.
+Proof.
+  intros w l H. eapply Forall_impl; [|exact H]. intros [] Hc; cbn in *; auto; contradiction.
+Qed.
+
+Lemma has_pending_app_l : forall w a b, has_pending w a -> has_pending w (a ++ b).
+Proof. intros w a b [id [H|H]]; exists id; [left|right]; apply in_or_app; auto. Qed.
+Lemma has_pending_app_r : forall w a b, has_pending w b -> has_pending w (a ++ b).
+Proof. intros w a b [id [H|H]]; exists id; [left|right]; apply in_or_app; auto. Qed.
+
+Lemma ready_pending_has_event : forall s w s' l,
+  poll_ready s w = (s', RPending, l) -> has_pending w l.
+Proof.
+  intros s w s' l H. destruct (ready_pending_has_pending _ _ _ _ H) as (id & ms & Hin).
+  exists id. right. eapply ready_pending_waker; eauto.
+Qed.
+
+(* the B step of apply_cfg_factory, shared by the A and B cases *)
+Lemma flive_cfgB : forall s cfg kc kev w f' r l,
+  (forall c s0 w0 f0 r0 l0, flive (kc c s0) -> fpoll (kc c s0) w0 = (f0, r0, l0) ->
+     r0 <> IPanic /\ Forall (fokev w0) l0 /\ (r0 = IPending -> flive f0 /\ has_pending w0 l0)) ->
+  flive (FFCfgB s cfg kc kev) -> fpoll (FFCfgB s cfg kc kev) w = (f', r, l) ->
+  r <> IPanic /\ Forall (fokev w) l /\ (r = IPending -> flive f' /\ has_pending w l).
+Proof.
+  intros s cfg kc kev w f' r l IHk (HC & HK & HE) H. cbn [fpoll] in H.
+  destruct (poll_ready s w) as [[s' rr] lr] eqn:Er.
+  pose proof (poll_ready_fokev _ _ _ _ _ Er) as Ok1.
+  destruct rr as [| |x].
+  - inversion H; subst. split; [discriminate|]. split; [assumption|]. intros _.
+    split; [cbn [flive]; auto|]. eapply ready_pending_has_event; eauto.
+  - destruct cfg as [c|]; [|contradiction].
+    destruct (fpoll (kc c s') w) as [[fc' r3] l3] eqn:E3.
+    destruct (IHk _ _ _ _ _ _ (HK c s') E3) as (N3 & O3 & P3).
+    inversion H; subst. split; [assumption|]. split.
+    + apply Forall_app; split; [assumption|]. apply Forall_app; split; [|assumption].
+      apply newtev_fokev, HE.
+    + intros E. destruct (P3 E) as [L3 HP]. split; [exact L3|].
+      apply has_pending_app_r, has_pending_app_r, HP.
+  - inversion H; subst. split; [discriminate|]. split; [assumption|discriminate].
+Qed.
+
+Lemma flive_poll : forall f w f' r l,
+  flive f -> fpoll f w = (f', r, l) ->
+  r <> IPanic /\ Forall (fokev w) l /\ (r = IPending -> flive f' /\ has_pending w l).
+Proof.
+  induction f as [id k out done|v|fa IHa fb IHb a b|sw st fut IH|kd m fut IH|fut IH done
+                  |fut IH kt IHk kev|fut IH|fut IH cfg kc IHk kev|s cfg kc IHk kev|fut IH];
+    intros w f' r l HL H.
+  - cbn [fpoll flive] in *. subst done.
+    destruct k; inversion H; subst; (split; [discriminate|]); (split; [repeat constructor|]);
+      intros E; try discriminate.
+    split; [reflexivity|]. exists id. left. now left.
+  - cbn [fpoll flive] in *. destruct v as [x|]; [|contradiction]. inversion H; subst.
+    split; [discriminate|]. split; [constructor|discriminate].
+  - cbn [flive] in HL. destruct HL as [HA HB]. cbn [fpoll] in H.
+    destruct a as [sa|].
+    + (* a already there *)
+      destruct b as [sb|].
+      * inversion H; subst. split; [discriminate|]. split; [constructor|discriminate].
+      * destruct (fpoll fb w) as [[fb' rb] lb] eqn:Eb.
+        destruct (IHb _ _ _ _ (HB eq_refl) Eb) as (N & O & P).
+        destruct rb as [|[sb|e]|]; inversion H; subst; cbn [app].
+        -- split; [discriminate|]. split; [assumption|]. intros _.
+           destruct (P eq_refl) as [L HP]. split; [|assumption]. cbn [flive]. split; [discriminate|auto].
+        -- split; [discriminate|]. split; [assumption|discriminate].
+        -- split; [discriminate|]. split; [assumption|discriminate].
+        -- contradiction.
+    + destruct (fpoll fa w) as [[fa' ra] la] eqn:Ea.
+      destruct (IHa _ _ _ _ (HA eq_refl) Ea) as (NA & OA & PA).
+      destruct ra as [|[sa|e]|].
+      * (* a pending *)
+        destruct b as [sb|].
+        -- inversion H; subst. rewrite app_nil_r. split; [discriminate|]. split; [assumption|].
+           intros _. destruct (PA eq_refl) as [L HP]. split; [|assumption].
+           cbn [flive]. split; [auto|discriminate].
+        -- destruct (fpoll fb w) as [[fb' rb] lb] eqn:Eb.
+           destruct (IHb _ _ _ _ (HB eq_refl) Eb) as (N & O & P).
+           destruct (PA eq_refl) as [LA HPA].
+           destruct rb as [|[sb|e]|]; inversion H; subst.
+           ++ split; [discriminate|]. split; [apply Forall_app; auto|]. intros _.
+              destruct (P eq_refl) as [LB HPB]. split; [cbn [flive]; auto|].
+              now apply has_pending_app_l.
+           ++ split; [discriminate|]. split; [apply Forall_app; auto|]. intros _.
+              split; [cbn [flive]; split; [auto|discriminate]|]. now apply has_pending_app_l.
+           ++ split; [discriminate|]. split; [apply Forall_app; auto|discriminate].
+           ++ contradiction.
+      * (* a ready with a service *)
+        destruct b as [sb|].
+        -- inversion H; subst. rewrite app_nil_r. split; [discriminate|]. split; [assumption|discriminate].
+        -- destruct (fpoll fb w) as [[fb' rb] lb] eqn:Eb.
+           destruct (IHb _ _ _ _ (HB eq_refl) Eb) as (N & O & P).
+           destruct rb as [|[sb|e]|]; inversion H; subst.
+           ++ split; [discriminate|]. split; [apply Forall_app; auto|]. intros _.
+              destruct (P eq_refl) as [LB HPB]. split; [cbn [flive]; split; [discriminate|auto]|].
+              now apply has_pending_app_r.
+           ++ split; [discriminate|]. split; [apply Forall_app; auto|discriminate].
+           ++ split; [discriminate|]. split; [apply Forall_app; auto|discriminate].
+           ++ contradiction.
+      * inversion H; subst. split; [discriminate|]. split; [assumption|discriminate].
+      * contradiction.
+  - cbn [flive] in HL. destruct HL as [HS HF]. cbn [fpoll] in H.
+    destruct (fpoll fut w) as [[fut' r1] l1] eqn:E1.
+    destruct (IH _ _ _ _ HF E1) as (N1 & O1 & P1).
+    destruct r1 as [|[s|e]|].
+    + inversion H; subst. split; [discriminate|]. split; [assumption|]. intros _.
+      destruct (P1 eq_refl). cbn [flive]. auto.
+    + destruct st; [| contradiction |]; inversion H; subst;
+        (split; [discriminate|]); (split; [assumption|discriminate]).
+    + inversion H; subst. split; [discriminate|]. split; [assumption|discriminate].
+    + contradiction.
+  - cbn [flive] in HL. cbn [fpoll] in H.
+    destruct (fpoll fut w) as [[fut' r1] l1] eqn:E1.
+    destruct (IH _ _ _ _ HL E1) as (N1 & O1 & P1).
+    destruct r1 as [|ir|].
+    + inversion H; subst. split; [discriminate|]. split; [assumption|]. intros _.
+      destruct (P1 eq_refl). cbn [flive]. auto.
+    + destruct (map_ierr kd m ir) as [ir' lm] eqn:Em. inversion H; subst.
+      split; [discriminate|]. split; [|discriminate].
+      apply Forall_app; split; [assumption|].
+      destruct ir; cbn in Em; inversion Em; subst; repeat constructor.
+    + contradiction.
+  - cbn [flive] in HL. destruct HL as [-> HF]. cbn [fpoll] in H.
+    destruct (fpoll fut w) as [[fut' r1] l1] eqn:E1.
+    destruct (IH _ _ _ _ HF E1) as (N1 & O1 & P1).
+    destruct r1 as [|[s|e]|]; inversion H; subst; try contradiction.
+    + split; [discriminate|]. split; [assumption|]. intros _.
+      destruct (P1 eq_refl). cbn [flive]. auto.
+    + split; [discriminate|]. split; [assumption|discriminate].
+    + split; [discriminate|]. split; [assumption|discriminate].
+  - cbn [flive] in HL. destruct HL as (HF & HK & HE). cbn [fpoll] in H.
+    destruct (fpoll fut w) as [[fut' r1] l1] eqn:E1.
+    destruct (IH _ _ _ _ HF E1) as (N1 & O1 & P1).
+    destruct r1 as [|[s|e]|].
+    + inversion H; subst. split; [discriminate|]. split; [assumption|]. intros _.
+      destruct (P1 eq_refl). cbn [flive]. auto.
+    + destruct (fpoll (kt s) w) as [[ft' r2] l2] eqn:E2.
+      destruct (IHk s _ _ _ _ (HK s) E2) as (N2 & O2 & P2).
+      inversion H; subst. split; [assumption|]. split.
+      * apply Forall_app; split; [assumption|]. apply Forall_app; split; [|assumption].
+        apply newtev_fokev, HE.
+      * intros E. destruct (P2 E) as [L2 HP]. split; [exact L2|].
+        apply has_pending_app_r, has_pending_app_r, HP.
+    + inversion H; subst. split; [discriminate|]. split; [assumption|discriminate].
+    + contradiction.
+  - cbn [flive] in HL. cbn [fpoll] in H.
+    destruct (fpoll fut w) as [[fut' r1] l1] eqn:E1.
+    destruct (IH _ _ _ _ HL E1) as (N1 & O1 & P1). inversion H; subst. auto.
+  - (* FFCfgA *)
+    cbn [flive] in HL. destruct HL as (HF & HC & HK & HE).
+    assert (IHk' : forall c s0 w0 f0 r0 l0, flive (kc c s0) -> fpoll (kc c s0) w0 = (f0, r0, l0) ->
+       r0 <> IPanic /\ Forall (fokev w0) l0 /\ (r0 = IPending -> flive f0 /\ has_pending w0 l0))
+      by (intros; eapply IHk; eauto).
+    cbn [fpoll] in H.
+    destruct (fpoll fut w) as [[fut' r1] l1] eqn:E1.
+    destruct (IH _ _ _ _ HF E1) as (N1 & O1 & P1).
+    destruct r1 as [|[s|e]|].
+    + inversion H; subst. split; [discriminate|]. split; [assumption|]. intros _.
+      destruct (P1 eq_refl). cbn [flive]. auto.
+    + (* same as a poll of state B, with l1 in front *)
+      assert (HB : flive (FFCfgB s cfg kc kev)) by (cbn [flive]; auto).
+      destruct (fpoll (FFCfgB s cfg kc kev) w) as [[fB rB] lB] eqn:EB.
+      destruct (flive_cfgB _ _ _ _ _ _ _ _ IHk' HB EB) as (NB & OB & PB).
+      cbn [fpoll] in EB.
+      destruct (poll_ready s w) as [[s' rr] lr] eqn:Er.
+      destruct rr as [| |x].
+      * inversion EB; subst. inversion H; subst. split; [discriminate|].
+        split; [apply Forall_app; auto|]. intros _. destruct (PB eq_refl) as [LB HP].
+        split; [assumption|]. now apply has_pending_app_r.
+      * destruct cfg as [c|]; [|contradiction].
+        destruct (fpoll (kc c s') w) as [[fc' r3] l3] eqn:E3.
+        inversion EB; subst. inversion H; subst. split; [assumption|].
+        split; [apply Forall_app; auto|]. intros E. destruct (PB E) as [LB HP].
+        split; [assumption|]. now apply has_pending_app_r.
+      * inversion EB; subst. inversion H; subst. split; [discriminate|].
+        split; [apply Forall_app; auto|discriminate].
+    + inversion H; subst. split; [discriminate|]. split; [assumption|discriminate].
+    + contradiction.
+  - eapply flive_cfgB; [intros; eapply IHk; eauto|eauto|eauto].
+  - cbn [flive] in HL. cbn [fpoll] in H.
+    destruct (fpoll fut w) as [[fut' r1] l1] eqn:E1.
+    destruct (IH _ _ _ _ HL E1) as (N1 & O1 & P1). inversion H; subst. auto.
+Qed.
